@@ -311,6 +311,16 @@ func (t *State) verifyXuperSign(tx *pb.Transaction, digestHash []byte) (bool, ma
 			return false, nil, errors.New("XuperSign: address and public key not match")
 		}
 	}
+	// VerifyXuperSignature按签名自带的类型验签: 裸ECDSA签名以及ECDSA/Schnorr/门限类型只校验第一个公钥,
+	// 环签名只证明其中某一个公钥参与了签名, 只有多重签名才覆盖全部公钥. 多个地址共用一个签名时只接受多重签名,
+	// 否则发起人自己的一个签名就会让列出的其他地址都被视为已验签
+	if len(pubkeys) > 1 {
+		xsig := struct{ SigType string }{}
+		if err := json.Unmarshal(tx.GetXuperSign().GetSignature(), &xsig); err != nil || xsig.SigType != "MultiSig" {
+			t.log.Warn("XuperSign: signature type can not cover multiple addresses", "sigType", xsig.SigType)
+			return false, nil, errors.New("XuperSign: signature does not cover all addresses")
+		}
+	}
 	ok, err := t.sctx.Crypt.VerifyXuperSignature(pubkeys, tx.GetXuperSign().GetSignature(), digestHash)
 	if err != nil || !ok {
 		t.log.Warn("XuperSign: signature verify failed", "error", err)
